@@ -9,9 +9,11 @@ Tie:  (T) the regular expressions of adf11.py/adf15.py are re-translated from th
 Search: parse(write(t)) = t, install + read back = parse, mismatching element header, absent block -- on the
       real implementation.
 """
+import itertools
 import json
 import math
 import os
+import pathlib
 import shutil
 from fractions import Fraction
 
@@ -34,6 +36,7 @@ KNOWN_KEYS = {
     "adf21-elem": "c08:adf21-element-header-not-checked",
     "adf22-elem": "c08:adf22-element-header-not-checked",
     "adf11-small": "c08:adf11-unresolved-small-density-grid-misread",
+    "adf12-npmeta": "c08:adf12-numpy-metastable-rejected-install-corrupts-repository-file",
 }
 
 
@@ -269,24 +272,24 @@ def multi_digit_cases(rng, formats=("adf2x", "adf12", "adf11", "adf15"), reps=1,
             el, meta = rng.choice([(("helium", 2), [1, 11, 1]), (("lithium", 3), [1, 10, 2, 1]), (("beryllium", 4), [2, 1, 12, 1])])
             t = W.gen_adf11(rng, nd=rng.choice([1, 2]), nt=2, element=el, meta=meta)
             out.append(mk_adf11(t, "resolved, metastable counts %s (two-digit IPRT/IGRD)" % meta, install=rng.choice(ADF11_TYPES)))
-            for nd, nt in ((rng.choice([100, 104, 121]), 1), (1, rng.choice([100, 101, 117])), (rng.choice([10, 12, 19]), rng.choice([10, 11]))):
+            for nd, nt in ((rng.choice([99, 100, 101]), 1), (1, rng.choice([99, 100, 101])), (rng.choice([9, 10, 11]), rng.choice([9, 10, 11]))):
                 t = W.gen_adf11(rng, nd=nd, nt=nt, resolved=False, element=("hydrogen", 1), safe=True)
                 out.append(mk_adf11(t, "grid nd=%d nt=%d" % (nd, nt), install=rng.choice(ADF11_TYPES)))
         if "adf12" in formats:
-            blocks = W.gen_adf12(rng, nblocks=rng.choice([10, 11, 14]), small=True)
+            blocks = W.gen_adf12(rng, nblocks=rng.choice([9, 10, 11]), small=True)
             out.append(mk_adf12(blocks, "blocks=%d (two-digit count)" % len(blocks), annotate=bool(rng.getrandbits(1))))
         if "adf15" in formats:
-            for nb, nd, nt in ((rng.choice([10, 12]), 1, 2), (rng.choice([100, 101, 113]), 1, 1), (1, rng.choice([10, 11, 17]), rng.choice([10, 12])),
-                               (1, 1, rng.choice([100, 103])), (1, rng.choice([100, 102]), 1)):
+            for nb, nd, nt in ((rng.choice([9, 10, 11]), 1, 2), (rng.choice([99, 100, 101]), 1, 1), (1, rng.choice([9, 10, 11]), rng.choice([9, 10, 11])),
+                               (1, 1, rng.choice([99, 100, 101])), (1, rng.choice([99, 100, 101]), 1)):
                 fmt = rng.choice(["hydrogen", "hydrogen-like", "full"])
                 t = W.gen_adf15(rng, fmt, nblocks=nb, nd=nd, nt=nt, ncfg=12 if fmt == "full" else None)
                 c = mk_adf15(t, "%s blocks=%d nd=%d nt=%d (multi-digit ISEL / counts)" % (fmt, nb, nd, nt), *ADF15_CALL[fmt])
                 # _extract_rate re-scans the file for every transition: >= 100 blocks are 10^4 header matches in the Coq matcher
                 # (~13 s); like the >= 100-block ADF12 file, the Coq side of this class runs in the thorough tier only
-                c.python_only = quick and nb >= 100
+                c.python_only = quick and nb >= 99
                 out.append(c)
         if "adf2x" in formats:
-            for k, (neb, ndt, ntt) in enumerate(((rng.choice([100, 104]), 1, 1), (2, rng.choice([10, 11]), rng.choice([10, 13])), (1, rng.choice([100, 101]), rng.choice([100, 109])))):
+            for k, (neb, ndt, ntt) in enumerate(((rng.choice([99, 100, 101]), 1, 1), (2, rng.choice([9, 10, 11]), rng.choice([9, 10, 11])), (1, rng.choice([99, 100, 101]), rng.choice([99, 100, 101])))):
                 which = ("adf21", "adf22bmp", "adf22bme")[(k + rep) % 3]
                 t = W.gen_adf2x(rng, neb=neb, ndt=ndt, ntt=ntt)
                 t["zt"] = rng.choice([10, 18, 26])
@@ -304,6 +307,9 @@ def gen_cases(ctx, E):
     q = ctx.quick
     cases = []
     el = lambda n: getattr(E, n)
+    # boundary values as a regular ingredient of the data: exact zeros, negative zeros, the smallest / largest printable
+    # magnitudes, exponents over the whole printable range (see c08_writers.PROFILE)
+    W.PROFILE.update(p=0.04, wide=0.04)
 
     # ---- ADF21 / ADF22 -------------------------------------------------------------------------------
     n2x = 18 if q else 90
@@ -321,6 +327,8 @@ def gen_cases(ctx, E):
         c.expected = exp_adf2x(W.expected_adf2x(t, Fraction(norm)))
         c.model = "parse_adas2x %s (lines FILE)" % qlit(Fraction(norm))
         nrec = (len(t["eb"]) + 7) // 8
+        c.beam = ("hydrogen", "deuterium", "hydrogen", "tritium")[i % 4]      # element or isotope as the beam species
+        c.np_ints = (i % 5 == 2)                                              # charge / transition as NumPy integers
         c.extra.append(("coq writer = file records (EB section)",
                         "check_writer 8 [%s] (firstn %d (skipn 4 (lines FILE)))" % ("; ".join("S_ " + coq_string(x) for x in t["eb"]), nrec)))
         cases.append(c)
@@ -344,9 +352,11 @@ def gen_cases(ctx, E):
         c.expected = exp_adf12(W.expected_adf12(blocks))
         c.model = "parse_adf12 (lines FILE)"
         cases.append(c)
+    c = mk_adf12([], "blocks=0 (empty table)")
+    cases.append(c)
     # more than 99 blocks (the count is an I5 field)
-    blocks = W.gen_adf12(rng, nblocks=rng.choice([100, 104, 123]))
-    c = Case("adf12", "blocks>=100", W.write_adf12(blocks, annotate=False), tokens=blocks)
+    blocks = W.gen_adf12(rng, nblocks=rng.choice([99, 100, 101, 123]))
+    c = Case("adf12", "blocks=%d (around the 99/100 text boundary)" % len(blocks), W.write_adf12(blocks, annotate=False), tokens=blocks)
     c.expected = exp_adf12(W.expected_adf12(blocks))
     c.model = "parse_adf12 (lines FILE)"      # a normal passing case since fix b20e7d4 (count read from the whole I5 field)
     c.python_only = q        # 200 kB of text: the Coq side of this class runs in the thorough tier
@@ -366,12 +376,25 @@ def gen_cases(ctx, E):
             small = (not t["resolved"]) and len(t["dens"]) <= 8 and t["temps"][0].startswith("-")
             if not small:
                 break
+        if i % 5 == 2:
+            rng.shuffle(t["blocks"])              # the charge of a block is what its header says, not its position
+        if i % 7 == 3:
+            t["name"] = t["name"].capitalize()    # '/Carbon': the comparison of names is case-insensitive on the file side
         c = Case("adf11", "%s nd=%d nt=%d blocks=%d term=%s" % ("resolved" if t["resolved"] else "unresolved", len(t["dens"]),
                                                               len(t["temps"]), len(t["blocks"]), t["terminator"]),
                  W.write_adf11(t), tokens=t, element=t["name"].lower(), z=t["z"], install=types[i % 6])
         c.expected = exp_adf11(W.expected_adf11(t))
         c.model = "parse_adf11 rx11_src %d (S_ %s) (lines FILE)" % (t["z"], coq_string(t["name"].lower()))
+        c.as_path = (i % 6 == 1)                  # pathlib.Path instead of str
+        if i % 5 == 2:
+            c.cls += " shuffled-blocks"
         cases.append(c)
+    # an isotope where the file names the element: the unchanged code compares names, so deuterium is rejected (recorded outcome)
+    t = W.gen_adf11(rng, nd=9, nt=2, resolved=False, element=("hydrogen", 1))
+    c = Case("adf11", "isotope requested (deuterium, file /HYDROGEN)", W.write_adf11(t), tokens=t, element="deuterium", z=1)
+    c.expected = "EValue"
+    c.model = "parse_adf11 rx11_src 1 (S_ \"deuterium\") (lines FILE)"
+    cases.append(c)
     # corpus of past disagreements / findings (token tables; the text is re-written by the writer), run with the rest
     cdir = os.path.join(os.path.dirname(os.path.dirname(os.path.abspath(__file__))), "corpus", "C08")
     for fn in sorted(f for f in os.listdir(cdir) if f.endswith(".json")) if os.path.isdir(cdir) else []:
@@ -416,7 +439,8 @@ def gen_cases(ctx, E):
     for i in range(n15):
         fmt = ("hydrogen", "hydrogen-like", "full")[i % 3]
         t = W.gen_adf15(rng, fmt, nblocks=rng.choice([1, 2, 3]) if q else None,
-                        nd=rng.choice([1, 2, 8, 9]) if q else None, nt=rng.choice([1, 3, 8, 9]) if q else None)
+                        nd=rng.choice([1, 2, 8, 9]) if q else None, nt=rng.choice([1, 3, 8, 9]) if q else None,
+                        permute_index=(i % 4 == 1), duplicate=(i % 6 == 4))
         fname = "file.dat"
         if fmt == "hydrogen":
             sel = i % 9
@@ -454,6 +478,20 @@ def gen_cases(ctx, E):
         c.model = "parse_adf15 rx15_src %s %s %s %s (lines FILE)" % tuple(
             "true" if b else "false" for b in (hf == "hydrogen" or elname == "hydrogen", hf == "hydrogen-like",
                                                zel - ch == 1, "bnd#" in fname))
+        if not malformed:
+            form = i % 8                             # the charge as int / NumPy integer / decimal string / float; the path as Path
+            c.charge_arg = {1: np.int64(ch), 3: str(ch), 5: float(ch)}.get(form, ch)
+            c.as_path = (form == 6 and "bnd#" not in fname)
+            if form in (1, 3, 5, 6):
+                c.cls += " argform=%s" % {1: "np.int64", 3: "str", 5: "float", 6: "Path"}[form]
+        cases.append(c)
+    # isotopes: deuterium is not `hydrogen`, so without header_format the hydrogen index layout is not tried (recorded rejection:
+    # RuntimeError); with header_format='hydrogen' the file is read
+    for hf in (None, "hydrogen"):
+        t = W.gen_adf15(rng, "hydrogen", nblocks=2, nd=2, nt=2)
+        c = Case("adf15", "isotope deuterium header_format=%s" % hf, W.write_adf15(t), tokens=t, element="deuterium", charge=0, header_format=hf)
+        c.expected = exp_adf15(W.expected_adf15(t)) if hf else "ERuntime"
+        c.model = "parse_adf15 rx15_src %s false true false (lines FILE)" % ("true" if hf else "false")
         cases.append(c)
     # F11: a neon file parsed as carbon
     t = W.gen_adf15(rng, "full", nblocks=2, nd=2, nt=3)
@@ -472,21 +510,32 @@ def gen_cases(ctx, E):
 # ---------------------------------------------------------------------------------------------------
 # running the implementation
 # ---------------------------------------------------------------------------------------------------
+def arg_forms(c, E):
+    """the beam species (an element or an isotope), the carbon target, and the integer arguments either as Python ints or as
+    NumPy integers (both are accepted by the API and must give the same tables)"""
+    B = getattr(E, getattr(c, "beam", "hydrogen"))
+    if getattr(c, "np_ints", False):
+        return B, E.carbon, np.int64(6), (np.int64(3), np.int32(2))
+    return B, E.carbon, 6, (3, 2)
+
+
 def run_impl(ctx, c, E, parse, workdir):
     path = os.path.join(workdir, c.fname)
     with open(path, "w") as fh:
         fh.write(c.text)
     ctx.crumb({"kind": c.kind, "cls": c.cls, "file_text": c.text[:20000]})
-    H, C = E.hydrogen, E.carbon
+    H, C, q6, tr32 = arg_forms(c, E)
+    if getattr(c, "as_path", False):
+        path = pathlib.Path(path)
     try:
         if c.kind == "adf21":
             tgt = getattr(E, getattr(c, "target", "carbon"))
-            c.impl = tbl_adf2x(parse.parse_adf21(H, tgt, 6, path)[H][tgt][6])
+            c.impl = tbl_adf2x(parse.parse_adf21(H, tgt, q6, path)[H][tgt][6])
         elif c.kind == "adf22bmp":
-            c.impl = tbl_adf2x(parse.parse_adf22bmp(H, 2, C, 6, path)[H][2][C][6])
+            c.impl = tbl_adf2x(parse.parse_adf22bmp(H, 2, C, q6, path)[H][2][C][6])
         elif c.kind == "adf22bme":
             tgt = getattr(E, getattr(c, "target", "carbon"))
-            c.impl = tbl_adf2x(parse.parse_adf22bme(H, tgt, 6, (3, 2), path)[H][tgt][6][(3, 2)])
+            c.impl = tbl_adf2x(parse.parse_adf22bme(H, tgt, q6, tr32, path)[H][tgt][6][(3, 2)])
         elif c.kind == "adf12":
             r = parse.parse_adf12(H, 1, C, 6, path)
             d = {}
@@ -502,12 +551,12 @@ def run_impl(ctx, c, E, parse, workdir):
             c.impl = tbl_adf11(c.raw)
         elif c.kind == "adf15":
             el = getattr(E, c.element)
-            rates, wl = parse.parse_adf15(el, c.charge, path, header_format=c.header_format)
+            rates, wl = parse.parse_adf15(el, getattr(c, "charge_arg", c.charge), path, header_format=c.header_format)
             c.impl = tbl_adf15(rates, wl, el, c.charge)
     except Exception as exc:            # mapped to the enum and compared with the model; never dropped
         c.impl = err_of(exc)
         c.notes["exception"] = repr(exc)[:300]
-    return path
+    return str(path)
 
 
 def roundtrip(ctx, c, E, path, workdir):
@@ -517,17 +566,17 @@ def roundtrip(ctx, c, E, path, workdir):
     repo = os.path.join(workdir, "repo_%s" % c.kind)
     shutil.rmtree(repo, ignore_errors=True)
     home_repo = os.path.join(os.environ["HOME"], ".cherab")
-    H, C = E.hydrogen, E.carbon
+    H, C, q6, tr32 = arg_forms(c, E)
     fails = []
     kw = dict(download=False, repository_path=repo, adas_path=workdir)
     if c.kind == "adf21":
-        install.install_adf21(H, C, 6, c.fname, **kw)
+        install.install_adf21(H, C, q6, c.fname, **kw)
         back = tbl_adf2x(repository.get_beam_stopping_rate(H, C, 6, repo))
     elif c.kind == "adf22bmp":
-        install.install_adf22bmp(H, 2, C, 6, c.fname, **kw)
+        install.install_adf22bmp(H, 2, C, q6, c.fname, **kw)
         back = tbl_adf2x(repository.get_beam_population_rate(H, 2, C, 6, repo))
     elif c.kind == "adf22bme":
-        install.install_adf22bme(H, C, 6, (3, 2), c.fname, **kw)
+        install.install_adf22bme(H, C, q6, tr32, c.fname, **kw)
         back = tbl_adf2x(repository.get_beam_emission_rate(H, C, 6, (3, 2), repo))
     elif c.kind == "adf12":
         install.install_adf12(H, 1, C, 6, c.fname, **kw)
@@ -548,7 +597,7 @@ def roundtrip(ctx, c, E, path, workdir):
         return fails, back
     elif c.kind == "adf15":
         el = getattr(E, c.element)
-        install.install_adf15(el, c.charge, c.fname, header_format=c.header_format, **kw)
+        install.install_adf15(el, getattr(c, "charge_arg", c.charge), c.fname, header_format=c.header_format, **kw)
         back = []
         for keys, shape, vals in c.impl:
             tr = tuple(keys[1:])
@@ -638,6 +687,217 @@ def roundtrip_adf11(ctx, c, E, workdir):
 
 
 # ---------------------------------------------------------------------------------------------------
+# histories on ONE repository: sequences of installs through every entry point
+# ---------------------------------------------------------------------------------------------------
+def install_call(c, E):
+    """(name of the install function, positional arguments before file_path)"""
+    B, C, q6, tr32 = arg_forms(c, E)
+    if c.kind == "adf21":
+        return "adf21", (B, C, q6)
+    if c.kind == "adf22bmp":
+        return "adf22bmp", (B, 2, C, q6)
+    if c.kind == "adf22bme":
+        return "adf22bme", (B, C, q6, tr32)
+    if c.kind == "adf12":
+        return "adf12", (B, 1, C, 6)
+    if c.kind == "adf15":
+        return "adf15", (getattr(E, c.element), getattr(c, "charge_arg", c.charge))
+    el = getattr(E, c.element)
+    return "adf11" + c.install, ((E.hydrogen, 0, el) if c.install == "ccd" else (el,))
+
+
+def install_case(c, E, repo, adas_dir, rel, via="direct"):
+    """via: 'direct' install_adfNN(...), 'files' install_files({...}) (the dispatcher, mixed-case key), 'cache' the file is found in
+    <repository>/_download_cache (download=True, no adas_path; nothing is fetched).  repo None = the default repository."""
+    from cherab.openadas import install, repository
+    name, args = install_call(c, E)
+    kw = {}
+    if c.kind == "adf15" and c.header_format is not None:
+        kw["header_format"] = c.header_format
+        via = "direct" if via == "files" else via
+    if via == "files":
+        key = name[:3].upper() + name[3:]
+        install.install_files({key: [tuple(args) + (rel,)]}, download=False, repository_path=repo, adas_path=adas_dir)
+    elif via == "cache":
+        root = repo or repository.utility.DEFAULT_REPOSITORY_PATH
+        dst = os.path.join(root, "_download_cache", rel)
+        os.makedirs(os.path.dirname(dst), exist_ok=True)
+        shutil.copyfile(os.path.join(adas_dir, rel), dst)
+        getattr(install, "install_" + name)(*args, rel, download=True, repository_path=repo, **kw)
+    else:
+        getattr(install, "install_" + name)(*args, rel, download=False, repository_path=repo, adas_path=adas_dir, **kw)
+
+
+def read_tree(root):
+    out = {}
+    for d, dirs, files in os.walk(root):
+        if "_download_cache" in d:
+            continue
+        for f in files:
+            p = os.path.join(d, f)
+            rel = os.path.relpath(p, root)
+            try:
+                out[rel] = json.load(open(p))
+            except ValueError as e:
+                out[rel] = "UNREADABLE: %s" % e
+    return out
+
+
+def merge_tree(model, tree):
+    """the stateless model of a repository fed with a sequence of installs: beam stopping / population files are replaced, beam CX
+    files are keyed by transition then metastable, every other file by its top-level key (charge or transition); a key that
+    is written again is replaced, the other keys stay"""
+    for path, content in tree.items():
+        if path.startswith(("beam/stopping", "beam/population")) or not isinstance(content, dict):
+            model[path] = content
+        elif path.startswith("beam/cx"):
+            tgt = model.setdefault(path, {})
+            for k, v in content.items():
+                tgt.setdefault(k, {}).update(v)
+        else:
+            model.setdefault(path, {}).update(content)
+
+
+def tree_diff(model, actual):
+    if set(model) != set(actual):
+        return "files differ: missing %s, unexpected %s" % (sorted(set(model) - set(actual))[:3], sorted(set(actual) - set(model))[:3])
+    for path in model:
+        a, b = model[path], actual[path]
+        if a != b:
+            if isinstance(a, dict) and isinstance(b, dict) and set(a) != set(b):
+                return "%s: keys missing %s, unexpected %s" % (path, sorted(set(a) - set(b))[:4], sorted(set(b) - set(a))[:4])
+            bad = [k for k in a if a[k] != b[k]][:3] if isinstance(a, dict) and isinstance(b, dict) else []
+            return "%s: content differs (keys %s)" % (path, bad)
+    return None
+
+
+def run_histories(ctx, E, cases, workdir, n_hist):
+    """Drive ONE repository through a sequence of installs (several formats, files whose keys overlap, the same file twice, a
+    file with fewer charge states after one with more), through install_adfNN, install_files and the download-cache route, with
+    an explicit repository path and with the default one; after EVERY step the whole repository tree must equal the merge of
+    the trees that fresh single installs of the same files produce."""
+    from cherab.openadas import repository
+    rng = ctx.rng
+    ok = [c for c in cases if isinstance(c.impl, list) and isinstance(c.expected, list) and not c.known and len(c.text) < 60000
+          and tables_match(c.impl, c.expected) is None and (c.kind != "adf11" or getattr(c, "install", None))]
+    fails, steps = [], 0
+    fresh = {}
+    for hi in range(n_hist):
+        default_repo = (hi % 2 == 1)
+        by_kind = {}
+        for c in ok:
+            by_kind.setdefault(c.kind + getattr(c, "install", ""), []).append(c)
+        seq = []
+        for k, lst in by_kind.items():
+            seq += rng.sample(lst, min(2, len(lst)))
+        rng.shuffle(seq)
+        seq = seq[:10]
+        seq += [seq[0], seq[len(seq) // 2]]                      # the same files once more, after others touched the repository
+        adas_dir = os.path.join(workdir, "hist_adas_%d" % hi) + "/"
+        repo = None if default_repo else os.path.join(workdir, "hist_repo_%d" % hi)
+        root = repo or repository.utility.DEFAULT_REPOSITORY_PATH
+        shutil.rmtree(root, ignore_errors=True)
+        model = {}
+        vias = itertools.cycle(["direct", "files", "cache"])
+        for si, c in enumerate(seq):
+            rel = "adf%02d/sub dir/%02d_%s" % (si % 3, si, c.fname)
+            os.makedirs(os.path.dirname(os.path.join(adas_dir, rel)), exist_ok=True)
+            with open(os.path.join(adas_dir, rel), "w") as fh:
+                fh.write(c.text)
+            if id(c) not in fresh:
+                fr = os.path.join(workdir, "hist_fresh")
+                shutil.rmtree(fr, ignore_errors=True)
+                install_case(c, E, fr, adas_dir, rel, "direct")
+                fresh[id(c)] = read_tree(fr)
+            via = next(vias)
+            ctx.crumb({"history": hi, "step": si, "via": via, "kind": c.kind, "cls": c.cls})
+            try:
+                install_case(c, E, repo, adas_dir, rel, via)
+                d = None
+            except Exception as exc:      # a file that installs alone must install in a sequence / through every route
+                d = "install raised %r" % (exc,)
+            merge_tree(model, json.loads(json.dumps(fresh[id(c)])))
+            steps += 1
+            d = d or tree_diff(model, read_tree(root))
+            if d:
+                fails.append((c, "a sequence of installs into one repository leaves, after every step, the tables of the files installed "
+                                 "(each key from the file that wrote it last)",
+                              "history %d (%s repository), step %d via %s (%s %s): %s; sequence so far: %s" % (
+                                  hi, "default" if default_repo else "explicit", si, via, c.kind, c.cls, d,
+                                  [(x.kind, x.cls[:30]) for x in seq[:si + 1]])))
+                break
+        shutil.rmtree(os.path.join(os.environ["HOME"], ".cherab"), ignore_errors=True)
+    # dispatcher sweep: ONE install_files call whose configuration holds one file of every kind (all eleven branches, mixed-case
+    # keys) into a fresh repository = the merge of the single installs
+    from cherab.openadas import install
+    adas_dir = os.path.join(workdir, "sweep_adas")
+    repo = os.path.join(workdir, "sweep_repo")
+    shutil.rmtree(repo, ignore_errors=True)
+    os.makedirs(adas_dir, exist_ok=True)
+    config, model, used = {}, {}, []
+    by_kind = {}
+    for c in ok:
+        if c.kind != "adf15" or c.header_format is None:
+            by_kind.setdefault(c.kind + getattr(c, "install", ""), []).append(c)
+    for k in sorted(by_kind):
+        c = rng.choice(by_kind[k])
+        rel = "%02d_%s" % (len(used), c.fname)
+        with open(os.path.join(adas_dir, rel), "w") as fh:
+            fh.write(c.text)
+        if id(c) not in fresh:
+            fr = os.path.join(workdir, "hist_fresh")
+            shutil.rmtree(fr, ignore_errors=True)
+            install_case(c, E, fr, adas_dir, rel, "direct")
+            fresh[id(c)] = read_tree(fr)
+        name, args = install_call(c, E)
+        config[name[:5].upper() + name[5:]] = [tuple(args) + (rel,)]
+        merge_tree(model, json.loads(json.dumps(fresh[id(c)])))
+        used.append(c)
+    if used:
+        try:
+            install.install_files(config, download=False, repository_path=repo, adas_path=adas_dir)
+            d = tree_diff(model, read_tree(repo))
+        except Exception as exc:
+            d = "install_files raised %r" % (exc,)
+        steps += len(used)
+        if d:
+            fails.append((used[0], "install_files(configuration) installs every file of the configuration as the matching install_adfNN does",
+                          "one configuration with the kinds %s: %s" % (sorted(config), d)))
+    return fails, steps
+
+
+def numpy_metastable_history(ctx, E, cases, workdir):
+    """ADF12 with the donor metastable given as a NumPy integer: the unchanged code rejects the form (TypeError from json) --
+    recorded as the expected outcome -- but a rejected install must not damage the repository: the same file installed next
+    with a Python int must be stored and read back."""
+    from cherab.openadas import install, repository
+    c = next((x for x in cases if x.kind == "adf12" and isinstance(x.impl, list) and x.impl and len(x.text) < 30000), None)
+    if c is None:
+        return []
+    repo = os.path.join(workdir, "repo_np_meta")
+    shutil.rmtree(repo, ignore_errors=True)
+    path = os.path.join(workdir, "np_meta.dat")
+    open(path, "w").write(c.text)
+    kw = dict(download=False, repository_path=repo, adas_path=workdir)
+    first = "accepted"
+    try:
+        install.install_adf12(E.hydrogen, np.int64(1), E.carbon, 6, "np_meta.dat", **kw)
+    except TypeError as exc:
+        first = "TypeError: %s" % exc
+    try:
+        install.install_adf12(E.hydrogen, 2, E.carbon, 6, "np_meta.dat", **kw)
+        got = dict(repository.get_beam_cx_rates(E.hydrogen, E.carbon, 6, tuple(c.impl[0][0]), repo))
+        if 2 not in [int(k) for k in got]:
+            return [(c, "adf12-npmeta", "installing the file and reading it back yields the same tables",
+                     "metastable 2 not readable after a rejected install with metastable np.int64(1) (%s)" % first)]
+    except Exception as exc:
+        return [(c, "adf12-npmeta", "installing the file and reading it back yields the same tables",
+                 "install_adf12(H, np.int64(1), C, 6) -> %s; the next install_adf12(H, 2, C, 6) of the same file into the same repository "
+                 "fails with %r: the rejected call left a truncated JSON file behind" % (first, exc))]
+    return []
+
+
+# ---------------------------------------------------------------------------------------------------
 def run(ctx):
     ctx.trusted += [
         "Coq 8.16.1 kernel, vm_compute (no native_compute)",
@@ -662,6 +922,11 @@ def run(ctx):
     assert list(cherab.__path__) == [REPO + "/cherab"], cherab.__path__
     from cherab.core.atomic import elements as E
     from cherab.openadas import parse
+    import urllib.request
+
+    def _no_network(url, target, *a, **k):      # the check never downloads: a download attempt is a failure of the local look-up
+        raise RuntimeError("download attempted for %s" % url)
+    urllib.request.urlretrieve = _no_network
 
     # ---- (T) regular expressions from the current source --------------------------------------------------
     rx_text, problems, patterns = c08_regex.translate(REPO)
@@ -720,6 +985,23 @@ def run(ctx):
             n_roundtrip += 1
             for f in fails:
                 search_fails.append((c, None, "installing the file and reading it back yields the same tables", f))
+
+    # ---- parsers are stateless: a file parsed again after all the others gives the same tables ---------------------
+    n_reparse = 0
+    for c in cases[::4]:
+        first = c.impl
+        run_impl(ctx, c, E, parse, workdir)
+        n_reparse += 1
+        if (isinstance(first, str) or isinstance(c.impl, str)) and first != c.impl or \
+                (isinstance(first, list) and isinstance(c.impl, list) and tables_exact(first, c.impl)):
+            search_fails.append((c, None, "parsing the same file again gives the same tables", "second parse differs from the first"))
+        c.impl = first
+    # ---- histories on one repository ------------------------------------------------------------------------------
+    hist_fails, n_hist_steps = run_histories(ctx, E, cases, workdir, 2 if ctx.quick else 8)
+    for c, claim, detail in hist_fails:
+        search_fails.append((c, None, claim, detail))
+    search_fails += numpy_metastable_history(ctx, E, cases, workdir)
+    ctx.log("histories: %d install steps on shared repositories, %d failures; %d files parsed twice" % (n_hist_steps, len(hist_fails), n_reparse))
 
     # ---- (X) correspondence: the model is run by Coq on the text of the same files ---------------------------
     coq_cases = [c for c in cases if not getattr(c, "python_only", False)]
@@ -824,6 +1106,7 @@ def run(ctx):
                 "records grid sizes / block counts / header layout / malformation; every case has >= 1 value per table",
         "distribution": {"by_format": by_kind, "implementation_outcome": by_outcome, "comparisons_in_coq": n_checks,
                          "install_readback_roundtrips": n_roundtrip,
+                         "history_install_steps_on_shared_repositories": n_hist_steps, "files_parsed_twice": n_reparse,
                          "adf2x_grids_not_multiple_of_8": not_mult,
                          "adf11_resolved": sum(1 for c in cases if c.kind == "adf11" and c.tokens.get("resolved")),
                          "adf15_formats": {f: sum(1 for c in cases if c.kind == "adf15" and c.tokens["fmt"] == f) for f in ("hydrogen", "hydrogen-like", "full")},
